@@ -9,10 +9,20 @@ import pyfaidx
 from gv.model import dbutil
 
 ID = "C18"
-RULE = ("part 'seq': every (record, start<=end, strand, use_strand) over a two-record FASTA (12 and 9 bases), FASTA given as path and as "
-        "object; part 'bed': every set of <= 3 pairwise disjoint exons over positions 1..6 (thorough 1..8) x transcript span {hull, hull "
-        "extended left, extended right} x CDS option x strand x name field x argument form (id / Feature) x thick/thin selection through "
-        "bed12() and to_bed12(). Non-trivial = minus strand or interior interval (seq); >= 2 exons or a span mismatch or no exon (bed)")
+RULE = (
+    "Part 'seq' (shards = record x start): every (record, start<=end, strand {+,-,.}, use_strand) over a two-record FASTA (12 bases; 9 "
+    "bases with IUPAC ambiguity codes) x FASTA given as pyfaidx object, as path, as a path that held another reference a moment ago, "
+    "and as a path with a stale index file next to it; len(feature), sequence() (keyword and positional use_strand) against reference "
+    "slicing / reverse complement, and sequence length = len. Part 'bed' (shards = blocks of 4 exon sets): every set of <= 3 pairwise "
+    "disjoint exons (incl. none) over positions 1..6 (quick, 176 sets) / 1..8 (thorough, 709) x transcript span {hull, extended left, "
+    "extended right} x strand {+,-} x CDS option (none, first, first+last, inner, first+last in descending file order) x name field "
+    "{ID, Name} x argument {id, Feature} x thick (CDS) / thin (UTR) selection x always_return_list x coordinate offset {100, 0} "
+    "(thorough: full product; quick: an 8-row pairwise-covering set of these five options); every other exon set uses block_featuretype "
+    "'noncoding_exon' with a decoy exon child. bed12() is compared field by field (12 fields, "
+    "chrom/start/end/name/score/strand/itemRgb/block count/sizes/starts, thick bounds), must raise ValueError exactly on a span "
+    "mismatch with exons; convert.to_bed12() (thick mode) is compared as well. Non-trivial = minus strand or interior interval (seq); "
+    ">= 2 exons or a span mismatch or no exon (bed)."
+)
 ASSUMPTIONS = [
     "thickStart/thickEnd without thick features, and overlapping exons, are not demanded",
     "thin selection is checked per the docstring's coordinate rule as implemented for BED (thickStart = end of first thin, thickEnd = start-1 of last thin)",
